@@ -169,6 +169,24 @@ func init() {
 			fr.i.yieldPoint("vxYield")
 			return nil
 		},
+		// vxHandoff: the current thread lets every other runnable thread run until it
+		// blocks or finishes (deterministic, independent of the scheduling mode)
+		"vxHandoff": func(fr *frame, a []value) value {
+			i := fr.i
+			if i.sch.evalDepth > 0 {
+				return nil
+			}
+			t := i.sch.cur
+			for _, x := range i.sch.threads {
+				if x != t && x.enabled() {
+					t.state = thRunnable
+					i.handoff(x)
+					i.park(t)
+					break
+				}
+			}
+			return nil
+		},
 		"vxSched": func(fr *frame, a []value) value {
 			fr.i.sch.mode = int(asInt64(a[0]))
 			fr.i.sch.maxPreempt = int(asInt64(a[1]))
